@@ -409,7 +409,6 @@ vharness! {
     //@ bounds: payload_size: u32 FULL WIDTH symbolic (payload not materialised: Encoded::Publish(pkt, None)); topic 0..=1 byte; qos/id symbolic
     //@ unwindset: utf8_is_valid=3 expect_lp=3
     //@ assumes: topic well-formed UTF-8; packet legal (QoS0 <=> no id)
-    //@ finding: payload sizes whose Remaining Length exceeds 268435455 reach `panic!("length is too big")` in write_variable_length (v3 only; see known_findings.txt)
     //@ desc: v3 PUBLISH Remaining Length arithmetic across the 1/2/3/4-byte boundaries for every declared payload size: RL == 2+topic+(2)+payload_size, encoded per spec
     fn rt3_publish_rl() unwind(6) {
         let mut p = any_publish3::<1>();
@@ -417,7 +416,7 @@ vharness! {
         vk::assume((p.qos == QoS::AtMostOnce) == p.packet_id.is_none());
         let hdr = 2 + p.topic.len() as u64 + if p.packet_id.is_some() { 2 } else { 0 };
         let total = hdr + p.payload_size as u64;
-        // outside the MQTT maximum the v3 encoder panics (recorded finding); inside it must work
+        // above the MQTT maximum the encoder must refuse: rt3_publish_rl_over
         vk::assume(total <= 268_435_455);
         let codec = Codec::new();
         let mut pages = BytePages::default();
@@ -447,8 +446,7 @@ vharness! {
     //@ functions: v3::Codec::encodev (Publish arm), encode::encode_publish, utils::write_variable_length
     //@ bounds: declared payload sizes for which 2+topic+id+payload_size exceeds 268435455 (the complement of rt3_publish_rl)
     //@ unwindset: utf8_is_valid=3
-    //@ finding: known K2: the v3 encoder reaches panic!("length is too big") instead of returning an error
-    //@ desc: documents the recorded finding K2: a v3 PUBLISH whose Remaining Length would exceed the MQTT maximum must be refused with an error, not a panic
+    //@ desc: a v3 PUBLISH whose Remaining Length would exceed the MQTT maximum (incl. sizes that overflow u32) is refused with an error and nothing is appended (regression harness of the defect fixed in /repo, see known_findings.txt)
     fn rt3_publish_rl_over() unwind(6) {
         let mut p = any_publish3::<1>();
         p.payload_size = vk::any_u32();
